@@ -11,6 +11,8 @@ CONSTANTS
   MaxTouched = 2
   GenMaxMixed = 2
   GenWithRepeat = FALSE
+  MaxPasses = 2
+  ReKeys = {4}
   AsCoded = TRUE
-INVARIANTS TypeOK Completeness SoundNonCancelling SingleFaultDetected BatchSplitIndependent OnlyGapIsCancelling
+INVARIANTS TypeOK ObjectsCurrent Completeness SoundNonCancelling SingleFaultDetected BatchSplitIndependent OnlyGapIsCancelling
 CHECK_DEADLOCK FALSE
